@@ -516,7 +516,15 @@ fn systematic_families(rng: &mut Rng, budget: usize) -> Vec<Call> {
     let per_lang = budget / 7;
     for &lang in &lang_order {
         let pool = &POOLS[lang];
-        let mut words: Vec<String> = pool.ordinals.iter().chain(pool.composite.iter()).map(|s| s.to_string()).collect();
+        let mut words: Vec<String> = pool
+            .ordinals
+            .iter()
+            .chain(pool.composite.iter())
+            .chain(crate::vocab::vocab(lang).iter())
+            .map(|s| s.to_string())
+            .collect();
+        words.sort();
+        words.dedup();
         for _ in 0..6 {
             words.push(gen_compound(rng, pool));
         }
@@ -546,7 +554,7 @@ fn systematic_families(rng: &mut Rng, budget: usize) -> Vec<Call> {
 
 pub fn gen_corpus(seed: u64, n: usize) -> Vec<Call> {
     let mut rng = Rng::new(crate::rng::run_seed(seed, "C14-corpus", 0));
-    let mut out: Vec<Call> = systematic_families(&mut rng, n / 3);
+    let mut out: Vec<Call> = systematic_families(&mut rng, n / 2);
     while out.len() < n {
         let base = gen_call(&mut rng);
         let nvar = *rng.pick(&[0usize, 0, 1, 2, 3, 4]);
